@@ -447,6 +447,12 @@ func genC19(t *rapid.T) C19Case {
 				}
 				if item.Merge == decAppend {
 					item.Val = model.Bytes("x")
+					if st && c.Strategy != "emptyput" && rapid.IntRange(0, 2).Draw(t, "same_as_merge_nil") == 0 {
+						// the stored value happens to be exactly what this decision yields for an ABSENT key ("" + "+" + val): the
+						// decision for the STORED value is still another one (stored + "+" + val)
+						item.Val = val("av", k, 'A')
+						c.Stored[len(c.Stored)-1].Val = append(model.Bytes("+"), item.Val...)
+					}
 				}
 				if item.Merge == decReplace {
 					item.Val = val("iv", k, byte('I'+r))
